@@ -76,6 +76,10 @@ def mw_table(bib):
         add(f"MergeNameParts(style={style})", lambda style=style: m.MergeNameParts(style=style, allow_inplace_modification=False))
     add("SortFieldsCustomMiddleware(order=title,author)", lambda: m.SortFieldsCustomMiddleware(order=("title", "author"), allow_inplace_modification=False))
     add("SortFieldsCustomMiddleware(cs)", lambda: m.SortFieldsCustomMiddleware(order=("Title", "year"), case_sensitive=True, allow_inplace_modification=False))
+    add("SortFieldsCustomMiddleware(cs, order given as a list)",
+        lambda: m.SortFieldsCustomMiddleware(order=["Title", "year", "author"], case_sensitive=True, allow_inplace_modification=False))
+    add("SortFieldsCustomMiddleware(order given as a list)",
+        lambda: m.SortFieldsCustomMiddleware(order=["title", "year"], allow_inplace_modification=False))
     add("SortBlocksByTypeAndKeyMiddleware", lambda: m.SortBlocksByTypeAndKeyMiddleware())
     add("SortBlocksByTypeAndKeyMiddleware(order=Entry,String;no comments)",
         lambda: m.SortBlocksByTypeAndKeyMiddleware(block_type_order=(M.Entry, M.String), preserve_comments_on_top=False))
@@ -125,6 +129,11 @@ def mutable_ids(lib, bib):
     seen[id(lib.blocks)] = "blocklist"
     for b in lib.blocks:
         block(b)
+    # every other way the library hands out blocks (a view that still answers with a block of another library shares it)
+    for view in (lib.entries, lib.strings, lib.preambles, lib.comments, lib.failed_blocks,
+                 list(lib.entries_dict.values()), list(lib.strings_dict.values())):
+        for b in view:
+            block(b)
     return seen
 
 
